@@ -280,6 +280,48 @@ def main(tier, seed):
                 which = [t for t, r in enumerate(recs) if all(final[f] == r["state"][f] for f in ("cost", "pred", "plabel", "label", "order"))]
                 rep.violation("learn leaves the classifier of iteration %r, the best accuracy %r was achieved at iteration %d (accuracies %r)" % (which, accs[b], b, accs),
                               desc, key="learn:keeps_best"); nviol += 1
+    # ---- (b') learn on feature matrices of other dtypes (64-bit identifiers / nanosecond time stamps beyond 2^53, 32-bit
+    #      integers, single precision): rows are only ever MOVED, so every row must survive bit for bit in its own dtype
+    tstats = dict(runs=0, exchanged=0, by_dtype={})
+    for i in range(24 if tier == "quick" else 600):
+        dt = [np.int64, np.int32, np.float32, np.int64][i % 4]
+        ntr, nva, dim = rng.randint(6, 12), rng.randint(4, 8), rng.randint(1, 3)
+        base = (1_700_000_000_000_000_001 if (dt is np.int64 and i % 8 < 4) else 0)
+        cen = [[rng.randint(0, 60) for _ in range(dim)] for _ in range(2)]
+        Ytr = [j % 2 for j in range(ntr)]; Yva = [j % 2 for j in range(nva)]
+        def rows(ys):
+            out = []
+            for y in ys:
+                r_ = [cen[y][t] + rng.randint(-25, 25) for t in range(dim)]
+                out.append([base + 2 * v for v in r_] if dt is not np.float32 else [v + rng.choice([0.25, 0.5, 0.125]) for v in r_])
+            return out
+        Xtr, Xva = np.array(rows(Ytr), dtype=dt), np.array(rows(Yva), dtype=dt)
+        Ytr, Yva = np.array(Ytr), np.array(Yva)
+        def ms(A, B, ya, yb):
+            return sorted([(tuple(r.tolist()), int(y)) for r, y in zip(A, ya)] + [(tuple(r.tolist()), int(y)) for r, y in zip(B, yb)])
+        before = ms(Xtr, Xva, Ytr, Yva)
+        A, B, ya, yb = Xtr.copy(), Xva.copy(), Ytr.copy(), Yva.copy()
+        desc = dict(metric="squared_euclidean", dtype=np.dtype(dt).name, Xtr=Xtr.tolist(), Ytr=Ytr.tolist(), Xva=Xva.tolist(), Yva=Yva.tolist(), n_iterations=3, np_seed=1000 + i)
+        np.random.seed(1000 + i)
+        try:
+            o = SupervisedOPF(distance="squared_euclidean")
+            o.learn(A, ya, B, yb, n_iterations=3)
+        except IndexError:
+            continue
+        except Exception as ex:
+            nviol += 1
+            rep.violation("SupervisedOPF.learn raised %r on %s feature matrices" % (ex, np.dtype(dt).name), desc, key="learn:raises:" + type(ex).__name__)
+            continue
+        tstats["runs"] += 1; tstats["by_dtype"][np.dtype(dt).name] = tstats["by_dtype"].get(np.dtype(dt).name, 0) + 1
+        tstats["exchanged"] += 1 if (A != Xtr).any() else 0
+        rep.count_case(("learn-dtype", i, np.dtype(dt).name), True)
+        after = ms(A, B, ya, yb)
+        if A.dtype != Xtr.dtype or B.dtype != Xva.dtype or A.shape != Xtr.shape or B.shape != Xva.shape:
+            rep.violation("learn changed the dtype / shape of the caller's matrices", desc, key="learn:sizes"); nviol += 1
+        elif after != before:
+            lost = [p for p in before if p not in after]
+            rep.violation("learn does not conserve the samples of %s matrices: %d (features,label) pairs lost, e.g. %r" % (np.dtype(dt).name, len(lost), lost[:1]), desc, key="learn:conservation"); nviol += 1
+    lstats["other_dtypes"] = tstats
     rep.corr["learn"] = dict(cases=lstats["runs"], distribution=lstats)
     bad = corr_learn(rep, "correspondence Model/Learn.learn vs SupervisedOPF.learn fed with the recorded accuracies, error positions, "
                           "prototype flags and random draws: four arrays afterwards, best iteration, iteration count, kept training set",
